@@ -5,7 +5,7 @@ import itertools
 import contextlib
 from .. import model, sweep
 from ..runner import Result, scratch
-from ..bridge import T, build, quiet, monitor, extract, mt_equal, raw_leaves
+from ..bridge import T, build, quiet, monitor, extract, mt_equal, raw_leaves, cli_options
 from .c13 import PUNCT
 
 from trees import transform
@@ -215,7 +215,7 @@ def check_filter(mtj):
             case = {'op': 'filter_by_length', 'mt': mtj, 'oper': oper, 'val': val}
             drop = {'lt': n < val, 'gt': n > val, 'eq': n == val}[oper]
             try:
-                r = transform.filter_by_length(t, filteroperator=oper, filtervalue=val)
+                r = transform.filter_by_length(t, **cli_options({'filteroperator': oper, 'filtervalue': val}))   # as --params gives them
             except Exception as e:
                 r = e
             if drop and r is not None or (not drop and r is not t):
